@@ -785,11 +785,27 @@ def _tup(x):
 
 
 def _close(fr, hexs):
+    """exact rational of the independent reader vs the float MontePy holds (sent as float.hex)"""
+    import math
     import spec
     try:
-        return spec.close(float(fr), float.fromhex(hexs)) if hexs.startswith(("0x", "-0x")) else spec.close(float(fr), float(hexs))
+        a = float(fr)
+    except OverflowError:
+        return True          # beyond binary64: no demand
+    try:
+        b = float.fromhex(hexs) if "0x" in hexs else float(hexs)
     except Exception:
         return False
+    if math.isinf(a) or math.isinf(b) or math.isnan(b):
+        return True
+    return spec.close(a, b)
+
+
+def _fs(x):
+    try:
+        return str(x)[:60]
+    except ValueError:
+        return "<huge>"
 
 
 def misrepresentations(sp, summ):
@@ -818,9 +834,9 @@ def misrepresentations(sp, summ):
                 diffs.append(("cell material", a["number"], a["material"], b["old_mat"]))
             if a["density"] is not None and b.get("density") not in (None,) and not str(b["density"]).startswith("error"):
                 if not _close(abs(a["density"]), b["density"].lstrip("-")):
-                    diffs.append(("cell density", a["number"], str(a["density"]), b["density"]))
+                    diffs.append(("cell density", a["number"], _fs(a["density"]), b["density"]))
                 elif b.get("atom_dens") is not None and a["density"] != 0 and (a["density"] > 0) != bool(b["atom_dens"]):
-                    diffs.append(("cell density sign", a["number"], str(a["density"]), b["atom_dens"]))
+                    diffs.append(("cell density sign", a["number"], _fs(a["density"]), b["atom_dens"]))
             if a["geom"] is not None and isinstance(b.get("geom"), list):
                 try:
                     if not spec.geom_equal(a["geom"], _tup(b["geom"])):
@@ -851,7 +867,7 @@ def misrepresentations(sp, summ):
             if a["mnemonic"] != str(b["type"]).upper():
                 diffs.append(("surface type", a["number"], a["mnemonic"], b["type"]))
             if len(a["constants"]) != len(b["constants"]) or not all(_close(x, y) for x, y in zip(a["constants"], b["constants"])):
-                diffs.append(("surface constants", a["number"], [str(x) for x in a["constants"]], b["constants"]))
+                diffs.append(("surface constants", a["number"], [_fs(x) for x in a["constants"]], b["constants"]))
             if (a["modifier"] == "*") != b["reflecting"] or (a["modifier"] == "+") != b["white"]:
                 diffs.append(("surface boundary", a["number"], a["modifier"], (b["reflecting"], b["white"])))
             p = a["pointer"]
@@ -908,7 +924,7 @@ def judge(case, res):
                               "mode": "read"})
             diffs = misrepresentations(sp, r.get("summary"))
             if diffs:
-                fails.append({"kind": "misrepresents", "diffs": [list(map(str, d)) for d in diffs[:3]], "mode": "read",
+                fails.append({"kind": "misrepresents", "diffs": [[_fs(x) for x in d] for d in diffs[:3]], "mode": "read",
                               "sig": "misrepresents:" + diffs[0][0]})
     # check mode: the same conditions are warnings and the call returns
     for mode in ("check", "cli"):
